@@ -16,6 +16,9 @@ KEYWORD_PREFIXES = [
     'input', 'INPUT', 'Input_', 'output', 'OUTPUT', 'Output9', 'vdd', 'VDD', 'buff',
     'BUFF', 'not', 'and', 'inputs', 'outputx', 'gnd',
 ]
+# labels that ARE a keyword / operator name of the bench format (a label that is a keyword also begins with it)
+BARE_KEYWORDS = ['input', 'INPUT', 'Input', 'output', 'OUTPUT', 'Output', 'input', 'output', 'vdd', 'VDD', 'gnd', 'buff', 'BUFF',
+                 'not', 'NOT', 'and', 'AND', 'or', 'xor', 'iff', 'inputoutput', 'INPUTOUTPUT']
 _IDENT_ALPHABET = 'abcxyzABCXYZ0123456789_@'
 
 
@@ -60,6 +63,8 @@ def label_list(draw, n_in: int, n_g: int, styles=('plain', 'digits', 'mixed')):
         lab = _label(style, kind, k, salt)
         if style == 'mixed' and draw(st.integers(0, 5)) == 0:
             lab = draw(st.sampled_from(SPECIAL_LABELS))
+        if style == 'keyword' and draw(st.integers(0, 4)) == 0:
+            lab = draw(st.sampled_from(BARE_KEYWORDS))
         if lab in used:
             lab = f'{lab}_u{k}'
         used.add(lab)
